@@ -3,6 +3,7 @@
 //! note: FundedChannel::write and the disconnection it implies: inbound HTLCs the peer has announced but not yet committed (RemoteAnnounced) are not written, the written HTLC count is reduced by their number, and so is the written next_counterparty_htlc_id (the peer retransmits those adds with the same ids after the reload)
 //! plemma: C12 lemma_channel_fields_are_read_in_the_order_written: the five fixed-position fields after funding_tx_confirmed_in (confirmation height, short channel id, the two dust limits, the in-flight limit) are read in the order FundedChannel::write emits them
 //! plemma: C12 lemma_channel_limits_are_read_in_the_order_written: the two fields after counterparty_htlc_minimum_msat likewise
+//! trusted: R15 (deep slices): ChannelMonitorUpdate write / read: the count expression written in front of the steps and the range of the reader's loop, verbatim; the version prefix, the per-step codecs and the TLV suffix are not sliced (TLV macros: u13c / u12c)
 //! trusted: R15 (deep slices): FundedChannel::write / read: the NAMES of consecutive fixed-position fields of the legacy section are captured on both sides as values of an enum; the lemmas state that the two sequences agree (same-typed neighbours such as the two dust limits can be swapped without a type error)
 //! trusted: R15 (deep slice + capture): ChannelManager::write: the statement that decides whether the pending events go into the legacy list or into TLV 8, and the condition under which TLV 8 is written; R6: `E.iter().any(|p| P)` / `E.iter().all(|p| P)` is an index loop carrying P verbatim that accumulates both answers, the quantifier written in the source selects the result (macro iter_quantifier!)
 //! trusted: R15 (statement slicing with captures): FundedChannel::write is ~500 lines of field-by-field serialization; the unit extracts, on every run, (a) the loop that counts the dropped inbound HTLCs, (b) the expression written as the inbound HTLC count, (c) the skip test of the loop that writes the inbound HTLCs, and (d) the expression written between next_holder_htlc_id and update_time_counter (the slot of next_counterparty_htlc_id), verbatim, as one function returning the two written numbers and the number of HTLCs not skipped; every other field of the channel is dropped and not claimed; `x.write(writer)?` of the two numbers becomes returning them
@@ -356,6 +357,47 @@ use core::cmp;
 //@end
 }
 
+// ---- ChannelMonitorUpdate write / read: the number of steps announced is the number written, and the reader loops over exactly that many ----
+pub mod monitor_update_codec {
+use vstd::prelude::*;
+pub struct Step { pub id: u64 }
+pub struct UpdateStub { pub update_id: u64, pub updates: Vec<Step> }
+impl UpdateStub {
+//@extract lightning/src/chain/channelmonitor.rs :: impl Writeable for ChannelMonitorUpdate :: fn write
+//@slice R15
+    self.update_id.write(w)?; ($n:seq).write(w)?; for update_step in $it:seq { update_step.write(w)?; }
+//@with
+    fn announced_number_of_steps(&self) -> u64 { $n }
+//@ret r
+//@ensures P C12 a-monitor-update-announces-exactly-as-many-steps-as-it-then-writes
+    r == self.updates@.len(),
+//@mutant one_step_fewer_announced
+    (self.updates.len() as u64).write(w)?;
+//@with
+    (self.updates.len() as u64 - 1).write(w)?;
+//@end
+}
+//@extract lightning/src/chain/channelmonitor.rs :: impl Readable for ChannelMonitorUpdate :: fn read
+//@slice R15
+    let len $decl:any = $lenexpr:seq; $mid:any for _ in $lo..$n:cond { if let Some(upd) = MaybeReadable::read(r)? {
+//@with
+    fn steps_loop_bound(len_read: u64) -> (u64, u64) {
+        let len $decl = $lenexpr;
+        (($lo) as u64, ($n) as u64)
+    }
+//@rw ? R10
+    Readable::read(r)?
+//@with
+    len_read
+//@ret r
+//@ensures P C12 the-reader-of-a-monitor-update-loops-over-exactly-as-many-steps-as-the-length-prefix-announces
+    r.0 == 0 && r.1 == len_read,
+//@mutant last_step_of_a_monitor_update_not_read
+    for _ in 0..len {
+//@with
+    for _ in 1..len {
+//@end
+}
 // ---- NetworkGraph read: the two length-prefixed maps and the node counters ---------------------------
 pub mod graph_read_bounds {
 use vstd::prelude::*;
